@@ -74,6 +74,8 @@ def r_reader(ctx, prog, rule="R-READER"):
 
 
 def run(ctx, prog):
+    from rules import rawio
+    rawio.run(ctx, prog, writers=False)
     from rules import scan
     scan.run(ctx, prog)
     latch.run(ctx, prog, want_c16=True)
